@@ -141,7 +141,7 @@ package main
 //@ ensures [failure-reaches-exit-status] !runFailed
 //@ ensures [user-files-intact] (!old(*autoname) && !old(*dedup)) ==> forall q string :: !isDerivedFile(q) ==> ((q in fs) <==> (q in old(fs))) && fs[q] == old(fs)[q]
 // C12: the prefix a plugin gets is the -pluginprefix override as given, otherwise its default prefix with "derive" replaced by -prefix
-//@ assert-at-call derive.Plugin.SetPrefix: [prefix-as-configured] (derive.Plugin.Name(p) in overridePrefixes ==> $arg0 == overridePrefixes[derive.Plugin.Name(p)]) && (!(derive.Plugin.Name(p) in overridePrefixes) ==> $arg0 == strings.Replace(derive.Plugin.GetPrefix(p), "derive", *prefix, 1))
+//@ assert-at-call derive.Plugin.SetPrefix: [prefix-as-configured] (derive.Plugin.Name($recv) in overridePrefixes ==> $arg0 == overridePrefixes[derive.Plugin.Name($recv)]) && (!(derive.Plugin.Name($recv) in overridePrefixes) ==> $arg0 == strings.Replace(derive.Plugin.GetPrefix($recv), "derive", *prefix, 1))
 // C11: -autoname and -dedup reach the plugin collection as parsed, each in its own place
 //@ assert-at-call derive.NewPlugins: [flags-as-parsed] $arg1 == *autoname && $arg2 == *dedup
 //@ loop 1: invariant !prefixesFrozen && overridePrefixes != nil
